@@ -27,7 +27,7 @@ ASSUMPTIONS = [
     "link keys beyond the configured key-table size, fields a version cannot store (v4: frame counters, children below v9) and the EUI64 when it cannot be rewritten are excluded, as the statement says",
     "command payload schemas inside the NCP model are bellows' own tables",
 ]
-PROBES = ["formed_by_zigpy_initialize", "restore_over_same_network", "second_round_trip_on_one_application", "eui64.rewritten_nv3", "eui64.not_rewritable", "eui64.same", "eui64.custom_before", "eui64.unknown", "hashed_tclk.given", "hashed_tclk.generated", "link_keys.some", "link_keys.over_capacity", "link_keys.gap_in_table", "read_failed_on_unanswered_command", "read_returned_despite_unanswered_command", "write_failed_on_unanswered_command", "write_returned_despite_unanswered_command",
+PROBES = ["formed_by_zigpy_initialize", "restore_over_same_network", "second_round_trip_on_one_application", "earlier_read_with_smaller_key_table", "eui64.rewritten_nv3", "eui64.not_rewritable", "eui64.same", "eui64.custom_before", "eui64.unknown", "hashed_tclk.given", "hashed_tclk.generated", "link_keys.some", "link_keys.over_capacity", "link_keys.gap_in_table", "read_failed_on_unanswered_command", "read_returned_despite_unanswered_command", "write_failed_on_unanswered_command", "write_returned_despite_unanswered_command",
           "children.some", "tc_address.unknown", "status_event_before_response", "token_api_missing", "mask_without_channel"]
 
 VERSIONS = list(range(4, 15))
@@ -64,6 +64,7 @@ def plan(tier):
         sweeps.append(("grid", {"V": V, "cap": 3, "tmpl": 2, "sched": False, "same_net": True}))
         sweeps.append(("grid", {"V": V, "cap": 3, "tmpl": 2, "sched": False, "pre_round": 3}))
         sweeps.append(("grid", {"V": V, "cap": 3, "tmpl": 0, "sched": False, "pre_round": 3}))
+        sweeps.append(("grid", {"V": V, "cap": 3, "tmpl": 3, "sched": False, "pre_round": 2, "pre_small_table": True}))
     # one command of the read-back is never answered (10 s command timeout): the read may fail, it must never return something else than what was written
     for V in (4, 7, 9, 13, 14):
         ks = list(range(0, 40)) + list(range(40, 330, 3 if tier == "thorough" else 9))
@@ -283,7 +284,13 @@ def run(scenario, params, tape, detail=False):
 
     async def main():
         app = await rig.start_app()
+        kt_connect = ncp._key_table_size()  # what connect()'s configuration write left the NCP with
         if params.get("pre_round") is not None:
+            if params.get("pre_small_table"):
+                # ... on a stick whose firmware refuses to grow the key table (it stays at the boot default of 2): what was learnt about THAT
+                # table says nothing about the table of the round trip under test
+                probe("earlier_read_with_smaller_key_table")
+                ncp.config_reject = {0x1E: "INVALID_CALL"}
             # the same application object has already been through one full write / read round trip (other settings, more link keys and
             # children): nothing of it may show up in the read-back under test
             probe("second_round_trip_on_one_application")
@@ -292,8 +299,9 @@ def run(scenario, params, tape, detail=False):
             await app._reset()
             await app.load_network_info(load_devices=True)
             ncp.sec_calls.clear()
+            ncp.config_reject = set()
         st["eui_before"] = bytes(ncp.eui64)
-        st["ktsize_configured"] = ncp._key_table_size()  # what connect()'s configuration write left the NCP with
+        st["ktsize_configured"] = kt_connect
         dropw = params.get("drop_write")
         if scenario == "dropwrite":
             dropw = tape.draw(160, "drop_write")
